@@ -185,6 +185,48 @@ func runCompiled(c *C16Case, rec *bufio.Writer, tmp string, idx int) (res Result
 		check("loaded-data", out4, err4)
 	}
 
+	// D. compiling a name again after the template under it was replaced gives the compiled form of the new one,
+	// whichever way it was replaced
+	replSrc := "REPLACED" + src
+	for _, how := range []string{"register-string", "register-compiled", "load-from-data", "register-template"} {
+		e5 := twig.New()
+		e5.RegisterString(helperName, helper)
+		if err := e5.RegisterString(name, src); err != nil {
+			break
+		}
+		if _, err := e5.CompileTemplate(name); err != nil {
+			fail("compile-first", err.Error(), "")
+			break
+		}
+		repl := &twig.CompiledTemplate{Name: name, Source: replSrc, LastModified: 1800000000, CompileTime: 1}
+		var rerr error
+		switch how {
+		case "register-string":
+			rerr = e5.RegisterString(name, replSrc)
+		case "register-compiled":
+			rerr = e5.RegisterCompiledTemplate(repl)
+		case "load-from-data":
+			var rd []byte
+			if rd, rerr = twig.SerializeCompiledTemplate(repl); rerr == nil {
+				rerr = e5.LoadFromCompiledData(rd)
+			}
+		case "register-template":
+			var t5 *twig.Template
+			if t5, rerr = e5.ParseTemplate(replSrc); rerr == nil {
+				e5.RegisterTemplate(name, t5)
+			}
+		}
+		if rerr != nil {
+			continue // (a source that does not parse is not registered: nothing to compare)
+		}
+		comp5, err := e5.CompileTemplate(name)
+		if err != nil {
+			fail("compile-after-"+how, err.Error(), "")
+		} else if comp5.Source != replSrc {
+			fail("compile-stale-after-"+how, short(comp5.Source), short(replSrc))
+		}
+	}
+
 	// the bytes handed out earlier must not change when something else is serialised later
 	if prevData != nil {
 		pb, err := twig.DeserializeCompiledTemplate(prevData)
@@ -244,10 +286,25 @@ func runCompiled(c *C16Case, rec *bufio.Writer, tmp string, idx int) (res Result
 		if mine != 1 {
 			fail("file-missing", fmt.Sprintf("%d files hold template %q after the saves", mine, name), "1")
 		}
+		// the same template object registered under a second key is saved and read back under that key
+		alias := name + "-alias"
+		aliasOK := false
+		if tObj, err := e1.Load(name); err == nil {
+			e1.RegisterTemplate(alias, tObj)
+			if err := cl.SaveCompiled(e1, alias); err != nil {
+				fail("save-compiled-alias", err.Error(), "")
+			} else {
+				aliasOK = true
+			}
+		}
 		e3 := twig.New()
 		e3.RegisterLoader(twig.NewCompiledLoader(dir))
 		out3, err3 := e3.Render(name, ctx)
 		check("compiled-loader", out3, err3)
+		if aliasOK {
+			out3a, err3a := e3.Render(alias, ctx)
+			check("compiled-loader-alias", out3a, err3a)
+		}
 		// saving again after the template changed must replace the file at once
 		changed := "CHANGED" + src
 		if err := e1.RegisterString(name, changed); err == nil {
